@@ -254,6 +254,13 @@ def main(argv=None):
     from cnfgen.transformations.shuffle import Shuffle
     from . import c05
     ck.model("Store", "Store_disciplined.cfg", workers=4)
+    # the same machine without the bound on the arguments: inductive invariant by Apalache, proof by TLAPS
+    # (both run beside the rest of the check)
+    import concurrent.futures as _cf
+    from . import tlc as _tlc
+    _pool = _cf.ThreadPoolExecutor(max_workers=2)
+    unbounded = [_pool.submit(_tlc.apalache_inductive, "StoreInd", "Init", "IndInv", "Safety"),
+                 _pool.submit(_tlc.tlaps, "StoreInd")]
     rec = Recorder()
     rec.install()
     records = []
@@ -407,6 +414,13 @@ def main(argv=None):
     for r in (records[0], records[len(records) // 2], records[-1]):
         ck.sample({k: r[k] for k in ("id", "fam", "par", "chain", "final", "events")})
     ck.judge("JudgeStore", records, cfg="JudgeStore.cfg", heap="3g")
+    wall = unbounded[0].result()
+    nobl, wall2 = unbounded[1].result()
+    ck.model_runs.append({"module": "StoreInd", "tool": "apalache-mc", "queries": "Init=>IndInv; IndInv/\\Next=>IndInv'; "
+                          "IndInv=>Safety; negative control", "wall_s": round(wall, 1)})
+    ck.model_runs.append({"module": "StoreInd", "tool": "tlapm", "obligations_proved": nobl, "wall_s": round(wall2, 1)})
+    ck.count("unbounded_inductive_invariant_queries", 4)
+    ck.count("tlaps_obligations_proved", nobl)
     ck.assumptions += ["events are recorded by wrapping BaseCNF/BaseOPB.add_clause, BaseOPB.add_constraint, "
                        "update_variable_number and VariablesManager._add_variable_group in the harness process; "
                        "clause data reaching the store by another route would not be seen",
